@@ -78,7 +78,20 @@ func (d *redisDatum) ToString() (value string, success bool) {
 	}
 }
 
+// maxRedisNesting bounds how deep arrays may be nested in one request,
+// commands are flat arrays of strings
+const maxRedisNesting = 8
+
 func parseRedisData(scanner *bufio.Scanner) (redisDatum, error) {
+	return parseRedisDatum(scanner, 0)
+}
+
+func parseRedisDatum(scanner *bufio.Scanner, depth int) (redisDatum, error) {
+	if depth > maxRedisNesting {
+		// the depth of the recursion is chosen by the client
+		return redisDatum{}, fmt.Errorf("Arrays nested deeper than %d levels", maxRedisNesting)
+	}
+
 	success := scanner.Scan()
 	if !success {
 		err := scanner.Err()
@@ -99,7 +112,7 @@ func parseRedisData(scanner *bufio.Scanner) (redisDatum, error) {
 		}
 		var items []interface{}
 		for i := uint64(0); i < n; i++ {
-			item, err := parseRedisData(scanner)
+			item, err := parseRedisDatum(scanner, depth+1)
 			if err != nil {
 				return redisDatum{}, err
 			}
